@@ -413,19 +413,19 @@ class DiscriminatedUnionUnpackerBuilder(AbstractUnpackerBuilder):
                 lines.append(f"variants_map = {variants_map}")
                 with lines.indent(f"for variant in {variants}:"):
                     if discriminator.variant_tagger_fn is not None:
-                        self._add_register_variant_tags(
-                            lines, variant_tagger_expr
-                        )
+                        lines.append(f"variant_tags = {variant_tagger_expr}")
                     else:
                         with lines.indent("try:"):
-                            self._add_register_variant_tags(
-                                lines, variant_tagger_expr
+                            lines.append(
+                                f"variant_tags = {variant_tagger_expr}"
                             )
                         with lines.indent("except KeyError:"):
                             lines.append("continue")
+                    # register a variant only once its unpacker exists
                     self._add_build_variant_unpacker(
                         spec, lines, variant_method_name, variant_method_call
                     )
+                    self._add_register_variant_tags(lines)
                 with lines.indent("try:"):
                     if spec.builder.is_nailed:
                         lines.append(
@@ -528,18 +528,15 @@ class DiscriminatedUnionUnpackerBuilder(AbstractUnpackerBuilder):
                     lines.append(f"return {attrs}.{variant_method_call}")
                 lines.append("except Exception: pass")
 
-    def _add_register_variant_tags(
-        self, lines: CodeLines, variant_tagger_expr: str
-    ) -> None:
+    def _add_register_variant_tags(self, lines: CodeLines) -> None:
         if self.discriminator.variant_tagger_fn:
-            lines.append(f"variant_tags = {variant_tagger_expr}")
             with lines.indent("if type(variant_tags) is list:"):
                 with lines.indent("for varint_tag in variant_tags:"):
                     lines.append("variants_map[varint_tag] = variant")
             with lines.indent("else:"):
                 lines.append("variants_map[variant_tags] = variant")
         else:
-            lines.append(f"variants_map[{variant_tagger_expr}] = variant")
+            lines.append("variants_map[variant_tags] = variant")
 
 
 class SubtypeUnpackerBuilder(DiscriminatedUnionUnpackerBuilder):
